@@ -555,6 +555,23 @@ def cases(rng, tier):
         addt("nest", "QUERY e " + " ".join(["LIMIT 1"] * n))
         addt("nest", "CREATE USER u WITH ROLES [" + ",".join(["r"] * n) + "]")
         addt("nest", "BATCH [" + ";".join(["PING"] * n) + "]")
+    # (trim) every White_Space code point (and near misses) before, after and inside commands
+    wsp = ["\t", "\n", "\x0b", "\x0c", "\r", " ", "\x85", "\xa0", "\u1680", "\u2000", "\u2001", "\u2002", "\u2003", "\u2004",
+           "\u2005", "\u2006", "\u2007", "\u2008", "\u2009", "\u200a", "\u2028", "\u2029", "\u202f", "\u205f", "\u3000",
+           "\x1c", "\x1f", "\u180e", "\u200b", "\u2060", "\ufeff", "\x00", "\x7f"]
+    tbase = ["PING", "QUERY e LIMIT 1", "QUERY e FOR \"c\"", "REMEMBER QUERY e AS m", "REPLAY FOR c", "SHOW m", "STORE e FOR c PAYLOAD {\"a\":1}",
+             "QUERY e WHERE a = \"x\"", "LIST USERS", "CREATE USER u"]
+    for w in wsp:
+        for t in tbase:
+            addt("trim", w + t)
+            addt("trim", t + w)
+        addt("trim", "QUERY" + w + "e")
+        addt("trim", "QUERY e FOR \"a" + w + "\"")
+        addt("trim", "REMEMBER" + w + "QUERY e AS m")
+        addt("trim", "REMEMBER QUERY e" + w + "AS m")
+        addt("trim", "REMEMBER QUERY e AS" + w + "m")
+        addt("trim", "REMEMBER QUERY e FOR \"x" + w + " AS y\" AS m" + w)
+        addt("trim", w + w + "FLUSH" + w + w)
     # (rand)
     words = KEYWORDS + OTHER_WORDS
     for i in range(200000 if big else 1200):
